@@ -854,7 +854,7 @@ class LessParser(object):
     def p_string_aux(self, p):
         """ string                  : t_isopen string_part_list t_isclose
         """
-        p[0] = ['"', p[2], '"']
+        p[0] = [p[1], p[2], p[3]]
 
     def p_string(self, p):
         """ string                  : css_string
